@@ -249,6 +249,27 @@ def _flat_signal(acc, detname, sig):
                                 bad = {"chunk": c, "local": l, "value": v}
             if bad is not None:
                 viol.append(("C01/%s/chunk_local_index" % detname, case, bad))
+    # flush histories: process(prefix ending ON an interior reversal, flush=True), then process(rest).  Flushing exactly a
+    # true reversal only anticipates what the next chunk would decide anyway (AbstractDetector.process docstring, example
+    # a), so the result must equal one-piece processing.
+    from mc.refs.rainflow import interior_reversals
+    for k, _ in interior_reversals(list(sig)):
+        if sig[k + 1] == sig[k]:
+            continue                      # reversal plateau: the flushed sample is not the last sample of the plateau
+        det = _new(detname)
+        try:
+            det.process(np.array(sig[:k + 1], dtype=float), flush=True)
+            det.process(np.array(sig[k + 1:], dtype=float))
+        except Exception as e:  # noqa: BLE001
+            viol.append(("C01/%s/flush-at-reversal/raises-%s" % (detname, type(e).__name__),
+                         {"det": detname, "signal": sig, "chunks": [k + 1, n - k - 1], "flush_first": True}, {"error": str(e)[:200]}))
+            continue
+        acc.evaluations += 2
+        acc.transitions += 2
+        d = _diff(_observe(det), one)
+        if d is not None:
+            viol.append(("C01/%s/flush-at-reversal/%s" % (detname, d[0]), {"det": detname, "signal": sig, "chunks": [k + 1, n - k - 1], "flush_first": True},
+                         {"observable": d[0], "flushed_then_continued": d[1], "one_piece": d[2]}))
     acc.states += len(finals)
     return viol, one
 
@@ -312,6 +333,15 @@ def replay(case):
         return [("C01/chunk_local_index", bad)] if bad else []
     n_done = sum(comp)
     one = _one_piece(detname, sig[:n_done])
+    if case.get("flush_first"):
+        det = _new(detname)
+        try:
+            det.process(np.array(sig[:comp[0]], dtype=float), flush=True)
+            det.process(np.array(sig[comp[0]:], dtype=float))
+        except Exception as e:  # noqa: BLE001
+            return [("C01/%s/flush-at-reversal/raises-%s" % (detname, type(e).__name__), {"error": str(e)[:200]})]
+        d = _diff(_observe(det), one)
+        return [("C01/%s/flush-at-reversal/%s" % (detname, d[0]), {"observable": d[0], "flushed_then_continued": d[1], "one_piece": d[2]})] if d else []
     mid = []
     try:
         det = _run_flat(detname, sig, comp, mid)
